@@ -19,7 +19,9 @@ const (
 	lkW    = 2
 )
 
-func lkName(s int) string { return map[int]string{lkTop: "⊤", lkNone: "unlocked", lkR: "read-locked", lkW: "write-locked"}[s] }
+func lkName(s int) string {
+	return map[int]string{lkTop: "⊤", lkNone: "unlocked", lkR: "read-locked", lkW: "write-locked"}[s]
+}
 
 func meetLk(a, b int) int {
 	if a == lkTop {
@@ -38,9 +40,9 @@ type lockAnalysis struct {
 	w        *World
 	T        *types.Named
 	lockFld  *types.Var
-	methods  []*ssa.Function          // all module functions touching T (methods of T and of embedders)
-	entry    map[*ssa.Function]int    // must-held state on entry
-	at       map[ssa.Instruction]int  // state before each instruction
+	methods  []*ssa.Function         // all module functions touching T (methods of T and of embedders)
+	entry    map[*ssa.Function]int   // must-held state on entry
+	at       map[ssa.Instruction]int // state before each instruction
 	acquires map[*ssa.Function][]ssa.Instruction
 }
 
@@ -156,7 +158,7 @@ func ruleC18(w *World) {
 			continue
 		}
 		touches := false
-		instrs(fn, func(ins ssa.Instruction) {
+		instrsFlat(fn, func(ins ssa.Instruction) {
 			switch x := ins.(type) {
 			case *ssa.FieldAddr:
 				if fieldOfT(addrField(x)) {
@@ -197,7 +199,7 @@ func ruleC18(w *World) {
 	}
 	var accs []access
 	for _, fn := range fns {
-		instrs(fn, func(ins ssa.Instruction) {
+		instrsFlat(fn, func(ins ssa.Instruction) {
 			switch x := ins.(type) {
 			case *ssa.Store:
 				if f := rootField(x.Addr); f != nil && fieldOfT(f) && f != lockFld {
@@ -243,7 +245,7 @@ func ruleC18(w *World) {
 		inSet[fn] = true
 	}
 	for _, fn := range fns {
-		instrs(fn, func(ins ssa.Instruction) {
+		instrsFlat(fn, func(ins ssa.Instruction) {
 			if c, ok := ins.(ssa.CallInstruction); ok {
 				if callee := c.Common().StaticCallee(); callee != nil && inSet[callee] {
 					callersIn[callee] = append(callersIn[callee], c)
@@ -321,7 +323,7 @@ func ruleC18(w *World) {
 	// R2: shape — per entry point at most one acquire site, released only by a deferred unlock,
 	// no acquire while held (also through callees), helpers never lock.
 	acquiresOf := func(fn *ssa.Function) (acq []ssa.Instruction, rel []ssa.Instruction, deferredRel int) {
-		instrs(fn, func(ins ssa.Instruction) {
+		instrsFlat(fn, func(ins ssa.Instruction) {
 			op, def := la.lockOp(ins)
 			switch op {
 			case "Lock", "RLock", "TryLock", "TryRLock":
@@ -350,7 +352,7 @@ func ruleC18(w *World) {
 			}
 		}
 		res := false
-		instrs(fn, func(ins ssa.Instruction) {
+		instrsFlat(fn, func(ins ssa.Instruction) {
 			if c, ok := ins.(ssa.CallInstruction); ok {
 				if callee := c.Common().StaticCallee(); callee != nil && inSet[callee] && touchesTrans(callee, seen) {
 					res = true
@@ -381,7 +383,7 @@ func ruleC18(w *World) {
 			}
 		}
 		callsLocked := false
-		instrs(fn, func(ins ssa.Instruction) {
+		instrsFlat(fn, func(ins ssa.Instruction) {
 			if c, ok := ins.(ssa.CallInstruction); ok {
 				if callee := c.Common().StaticCallee(); callee != nil && inSet[callee] && !isEntry(callee) && touchesTrans(callee, map[*ssa.Function]bool{}) {
 					callsLocked = true
@@ -423,9 +425,40 @@ func ruleC18(w *World) {
 				detail = "the acquire is not immediately followed by the matching deferred release"
 			}
 		}
+		if !good && len(acq) == 1 && drel == 0 && len(rel) >= 1 {
+			// explicit form: one acquire (not in a loop), a matching release on every way out, nothing locked at any return
+			a := acq[0]
+			aop, _ := la.lockOp(a)
+			okExplicit := true
+			why := ""
+			for _, r := range rel {
+				op, _ := la.lockOp(r)
+				if !((aop == "Lock" && op == "Unlock") || (aop == "RLock" && op == "RUnlock")) {
+					okExplicit, why = false, "a release does not match the kind of the acquire"
+				}
+				if st := la.at[r]; st == lkNone || st == lkTop {
+					okExplicit, why = false, "a release is reachable without the lock being held"
+				}
+			}
+			for _, s2 := range a.Block().Succs {
+				if reachAvoid(s2, a.Block(), nil) {
+					okExplicit, why = false, "the acquire sits in a loop (several critical sections)"
+				}
+			}
+			for _, r := range returnsD(fn, 99) {
+				if st := la.at[r]; st != lkNone {
+					okExplicit, why = false, "a return is reached with the mutex still "+lkName(st)
+				}
+			}
+			if okExplicit {
+				good = true
+			} else {
+				detail += "; " + why
+			}
+		}
 		w.check(good, "C18.R2", key, fn.Pos(), "exactly one critical section (acquire + matching deferred release) spanning to the return", "method does not consist of one critical section held to the return: "+detail+" — results computed in one section and used in another are not atomic")
 		// re-entry: calls made while holding the lock must not reach a locking function
-		instrs(fn, func(ins ssa.Instruction) {
+		instrsFlat(fn, func(ins ssa.Instruction) {
 			c, ok := ins.(ssa.CallInstruction)
 			if !ok {
 				return
@@ -473,22 +506,46 @@ func ruleC18(w *World) {
 			nmu++
 			fs := w.factsAt(a.ins)
 			okHas, okEnough := false, false
+			recv := ""
+			if len(a.fn.Params) > 0 {
+				recv = a.fn.Params[0].Name()
+			}
+			mapName := recv + "." + a.fld.Name()
+			isHas := func(e string) bool { return strings.HasPrefix(e, mapName+"[") && strings.HasSuffix(e, "]#1 == false") }
+			isEnough := func(e string) bool {
+				return e == cmpFact("len("+mapName+")", "!=", "("+recv+".threshold + 1)") || e == cmpFact("len("+mapName+")", "<", "("+recv+".threshold + 1)") ||
+					e == cmpFact("len("+mapName+")", "<=", recv+".threshold")
+			}
 			for _, f := range fs {
-				if strings.Contains(f.Expr, ".hasShare(") && strings.HasSuffix(f.Expr, "== false") {
+				if isHas(f.Expr) {
 					okHas = true
 				}
-				if strings.Contains(f.Expr, ".enoughShares()") && strings.HasSuffix(f.Expr, "== false") {
+				if isEnough(f.Expr) {
 					okEnough = true
 				}
 			}
 			key := fnKey(a.fn) + "/map-update"
 			w.check(okHas, "C18.R4", key+"/not-yet-present", a.ins.Pos(), "share stored only if the signer has none yet", "share map updated without the `signer has no share yet` guard (one share per signer can be violated)", factStrings(fs)...)
 			w.check(okEnough, "C18.R4", key+"/not-enough-yet", a.ins.Pos(), "share stored only while fewer than t+1 are held", "share map updated without the `not enough shares yet` guard (more than t+1 shares can be retained and EnoughShares can revert)", factStrings(fs)...)
-			// the guards must have been evaluated in this critical section: their calls happen with the lock held
+			// the guards must have been evaluated in this critical section: the reads they depend on happen with the exclusive lock held
 			for _, f := range fs {
-				if strings.Contains(f.Expr, ".hasShare(") || strings.Contains(f.Expr, ".enoughShares()") {
-					for _, c := range f.calls {
-						if st := la.at[c]; st != lkW {
+				if isHas(f.Expr) || isEnough(f.Expr) {
+					var pts []ssa.Instruction
+					for _, c := range f.via {
+						pts = append(pts, c)
+					}
+					if len(pts) == 0 {
+						for _, l := range f.loads {
+							if l.Parent() == a.fn {
+								pts = append(pts, l)
+							}
+						}
+						if len(pts) == 0 && f.If != nil {
+							pts = append(pts, f.If)
+						}
+					}
+					for _, c := range pts {
+						if st, known := la.at[c]; known && st != lkW {
 							w.viol("C18.R4", key+"/guard-in-section", c.Pos(), "guard `"+f.Expr+"` was evaluated while the mutex was "+lkName(st)+", not inside the critical section that performs the update")
 						}
 					}
